@@ -395,7 +395,16 @@ def _translit_body(body_lines, cells=frozenset()):
     return out
 
 
+_INTCAST = re.compile(r'<\s*(?:unsigned\s+|signed\s+)?(?:int|long|long\s+long|short|char|size_t|Py_ssize_t|ssize_t)\s*>\s*([A-Za-z_][\w\.]*(?:\([^()]*\))?|\([^()]*\))')
+
+
+def _cint(v):
+    """C integer cast: identity on symbolic values (the symbolic executor works over the reals and the integer-valuedness is a path condition of the caller), int() on python floats"""
+    return int(v) if isinstance(v, float) else v
+
+
 def _post(ln):
+    ln = _INTCAST.sub(lambda m: '_cint(%s)' % m.group(1), ln)
     ln = _CAST.sub('', ln)
     ln = _conv_addr(ln)
     ln = re.sub(r'\bNULL\b', 'None', ln)
@@ -421,4 +430,4 @@ def translit_function(src, qual, newname=None):
     return code, span
 
 
-RUNTIME = {'CArr': CArr, 'Ptr': Ptr, 'Ref': Ref, 'addr': addr, 'ExtentError': ExtentError, 'prange': range}
+RUNTIME = {'CArr': CArr, 'Ptr': Ptr, 'Ref': Ref, 'addr': addr, 'ExtentError': ExtentError, 'prange': range, '_cint': _cint}
